@@ -134,16 +134,14 @@ M.contract('xtuml.tools.OrderedSet.__iter__', [('self', OSET)], kind='generator'
            requires={'wf': 'wf(self)'},
            ensures={'yields-view-in-order': 'len(result) == len(self.view) and all(result[j] is self.view[j] for j in range(0, len(result)))'}, modifies=[],
            loops={0: Loop(inv={'prefix-yielded': 'len(_yielded) <= len(self.view) and all(_yielded[j] is self.view[j] for j in range(0, len(_yielded)))',
-                               'cursor': 'curr is (self.nodes[len(_yielded)] if len(_yielded) < len(self.view) else self.end)',
-                               'end': 'end is self.end'},
+                               'cursor': '_w0 is (self.nodes[len(_yielded)] if len(_yielded) < len(self.view) else self.end)'},
                           decreases='len(self.view) - len(_yielded)')})
 M.contract('xtuml.tools.OrderedSet.__reversed__', [('self', OSET)], kind='generator', yields=KEY,
            requires={'wf': 'wf(self)'},
            ensures={'yields-view-reversed': 'len(result) == len(self.view) and all(result[j] is self.view[len(self.view) - 1 - j] for j in range(0, len(result)))'},
            modifies=[],
            loops={0: Loop(inv={'suffix-yielded': 'len(_yielded) <= len(self.view) and all(_yielded[j] is self.view[len(self.view) - 1 - j] for j in range(0, len(_yielded)))',
-                               'cursor': 'curr is (self.nodes[len(self.view) - 1 - len(_yielded)] if len(_yielded) < len(self.view) else self.end)',
-                               'end': 'end is self.end'},
+                               'cursor': '_w0 is (self.nodes[len(self.view) - 1 - len(_yielded)] if len(_yielded) < len(self.view) else self.end)'},
                           decreases='len(self.view) - len(_yielded)')})
 
 # ---- comparison, ends, removal, in-place union
